@@ -18,5 +18,7 @@ VARIABLES
 INSTANCE IntroducerCore WITH Services <- {"storage", "other"}, Keys <- {"k1", "k2"}, Bodies <- {"a", "b", "c"}
 
 IndInit == S = Gen(4) /\ seen = Gen(4) /\ verified = Gen(4) /\ IndInv
+\* base case and induction step in one query (quick tier): state 0 is an initial state or any IndInv state
+BaseOrIndInit == Init \/ IndInit
 Props == NeverOlder /\ Authentic /\ SubscribedOnly
 =============================================================================
